@@ -44,7 +44,7 @@ def run(res, tier, br, model_ok=True, search=False):
             cases.append(("snip.h", text, "snippet-" + kind))
     for kind, text in faults.soup(rng, 2, 120000 if big else 6000, 7):
         cases.append(("soup.c", text, kind))
-        if big and rng.random() < 0.2:
+        if rng.random() < (0.3 if big else 0.5):
             cases.append(("soup.h", text, kind + "/h"))
     outs = faults.run_many([(n, s) for n, s, k in cases], timeout=10.0)
     kinds = {}
